@@ -12,6 +12,7 @@
 #include <fcppt/parse/basic_stream_fwd.hpp>
 #include <fcppt/parse/deref.hpp>
 #include <fcppt/parse/error.hpp>
+#include <fcppt/parse/fatal_tag.hpp>
 #include <fcppt/parse/named_decl.hpp>
 #include <fcppt/parse/result.hpp>
 #include <fcppt/config/external_begin.hpp>
@@ -33,8 +34,14 @@ fcppt::parse::named<Ch, Parser>::parse(
 {
   return fcppt::either::map_failure(
       fcppt::parse::deref(this->parser_).parse(_state, _skipper),
-      [this](fcppt::parse::error<Ch> && // TODO(philipp)
-      ) { return fcppt::parse::error<Ch>{FCPPT_STRING_LITERAL(Ch, "Expected ") + this->name_}; });
+      [this](fcppt::parse::error<Ch> &&_error)
+      {
+        // Only the message is replaced: a fatal error has to stay fatal,
+        // otherwise an enclosing alternative would backtrack.
+        return _error.is_fatal()
+                   ? fcppt::parse::error<Ch>{FCPPT_STRING_LITERAL(Ch, "Expected ") + this->name_, fcppt::parse::fatal_tag{}}
+                   : fcppt::parse::error<Ch>{FCPPT_STRING_LITERAL(Ch, "Expected ") + this->name_};
+      });
 }
 
 #endif
